@@ -254,7 +254,7 @@ func buildReport(e *Engine, prop, tier string, ts []*fnTrans, trusted []*FuncCon
 				t = x
 			}
 		}
-		path := filepath.Join(out, "replay", sanitize(o.Name)+".txt")
+		path := filepath.Join(out, "replay", fileSafe(o.Name)+".txt")
 		reproduced := writeReplay(e, t, o, path, noReplay)
 		line := fmt.Sprintf("VIOLATION property=%s replay=%s", prop, path)
 		if !reproduced {
@@ -264,7 +264,7 @@ func buildReport(e *Engine, prop, tier string, ts []*fnTrans, trusted []*FuncCon
 		r.Violations++
 	}
 	for _, m := range r.Missing {
-		path := filepath.Join(out, "replay", "missing_"+sanitize(m)+".txt")
+		path := filepath.Join(out, "replay", "missing_"+fileSafe(m)+".txt")
 		os.WriteFile(path, []byte("locked obligation was not generated from the current tree (contract clause, loop or function disappeared): "+m+"\n"), 0o644)
 		r.ViolLines = append(r.ViolLines, fmt.Sprintf("VIOLATION property=%s replay=%s no-failing-input-found", prop, path))
 		r.Violations++
@@ -279,7 +279,7 @@ func buildReport(e *Engine, prop, tier string, ts []*fnTrans, trusted []*FuncCon
 		// contradicts an assumed callee contract, lock invariant or its own precondition on every path to that point. Reported as
 		// a violation of the obligation `<fn>/cover[..]` (no input: the contradiction is between code and contracts).
 		for _, c := range r.CoverFail {
-			path := filepath.Join(out, "replay", "cover_"+sanitize(c)+".txt")
+			path := filepath.Join(out, "replay", "cover_"+fileSafe(c)+".txt")
 			os.WriteFile(path, []byte("obligation: "+c+"\nkind: cover (reachability / vacuity guard)\nverdict: the point is unreachable under the contract's assumptions although no other obligation failed.\n"+
 				"On the unchanged tree this query is satisfiable; the change made the code contradict the contracts it relies on (callee contracts, lock invariants, preconditions),\n"+
 				"so every clause after the contradiction holds vacuously. no-failing-input-found\n"), 0o644)
